@@ -2888,6 +2888,8 @@ impl fmt::Debug for GeneratorState {
 pub enum GeneratorStatus {
     /// Not yet started
     Suspended,
+    /// Its body is executing right now (it cannot be resumed again from inside itself)
+    Running,
     /// Completed (returned or exhausted)
     Completed,
 }
